@@ -63,9 +63,15 @@ def main():
                             shutil.copy(p, os.path.join(d, "replay_%s.json" % prop))
                 print("%-28s %-4s exit=%d caught=%s witness=%s (%.0fs)" % (sid, prop, r.returncode, res[prop]["caught"], res[prop]["with_witness"], res[prop]["wall_s"]), flush=True)
             results[sid] = {"property": meta["property"], "tier": tier, "checks": res}
+            # several streams may run side by side: merge into the file under a lock after every seed
+            import fcntl
+            with open(rp + ".lock", "w") as lk:
+                fcntl.flock(lk, fcntl.LOCK_EX)
+                cur = json.load(open(rp)) if os.path.exists(rp) else {}
+                cur[sid] = results[sid]
+                json.dump(cur, open(rp, "w"), indent=1, sort_keys=True)
         finally:
             sh(["git", "-C", "/repo", "worktree", "remove", "--force", wt])
-    json.dump(results, open(rp, "w"), indent=1, sort_keys=True)
 
 
 if __name__ == "__main__":
